@@ -42,6 +42,10 @@ def run(ctx):
     ctx.call(GR.lazy_eager_details, "8")
     ctx.call(GR.dependency_table, "4t")
     ctx.call(GR.parse_inputs_readonly, "9")
+    from . import c16 as C16
+
+    # the only variant filter of the lazy path: node and object restriction filters agree and match whole variants
+    ctx.call(C16.graph_lookups, "10")
 
 
 NODE = "cartgraph/node.py"
